@@ -303,12 +303,15 @@ class Puppet:
         return max(seen, self._last_pn.get(space, -1)) + 1
 
     def default_dcid(self) -> bytes:
-        """The destination CID ``as_side`` most recently used towards the subject."""
+        """The destination CID a real ``as_side`` would use now: the one it used
+        last -- except that a client which has so far only addressed the
+        server by the original (or Retry-supplied) DCID switches to the server's
+        source CID as soon as the server has shown one."""
+        other = "client" if self.as_side == "server" else "server"
         cid = self.observer.last_dcid.get(self.as_side)
-        if cid is None:
-            # as_side has not sent anything yet: for a client this is the ODCID
-            other = "client" if self.as_side == "server" else "server"
-            cid = self.observer.last_scid.get(other)
+        other_scid = self.observer.last_scid.get(other)
+        if other_scid and (cid is None or cid in self.observer.initial_dcids):
+            cid = other_scid
         if cid is None:
             raise ValueError("no destination CID known yet for %s" % self.as_side)
         return cid
